@@ -170,9 +170,12 @@ def rand_target(r, n):
     return bytes(out)
 
 
+UTF8_SAMPLES = ["é".encode(), "€".encode(), "😀".encode(), "ß".encode(), "✓".encode()]
+
+
 def rand_value(r, n, obs=True):
     out = bytearray()
-    for i in range(n):
+    while len(out) < n:
         k = r.below(16)
         if k == 0:
             out.append(9)
@@ -180,6 +183,8 @@ def rand_value(r, n, obs=True):
             out.append(32)
         elif k == 2 and obs:
             out.append(128 + r.below(128))
+        elif k == 3 and obs and n - len(out) >= 4:
+            out += r.choice(UTF8_SAMPLES)          # well-formed multi-byte text
         else:
             out.append(33 + r.below(94))
     return bytes(out)
